@@ -45,3 +45,70 @@ Theorem C05_failed_update_unchanged :
     load_p d' = load_p d /\ arts d' = arts d.
 Proof. exact failed_update_unchanged. Qed.
 Print Assumptions C05_failed_update_unchanged.
+
+(* ---------- the download directory (Downloads.v) ----------
+   downloads/<n> and downloads/<n>.full are never deleted by the library, so every update runs on top of
+   what earlier attempts (of this or an older release) left behind.  In the model the directory is an
+   output only: *)
+From UV Require Import Downloads.
+
+(* whatever is lying in downloads/, a call does the same thing: same result, same network actions, same
+   patch state and artifacts (the model-side statement of "File::create truncates and the download is
+   always rewritten"; the correspondence check compares the directory after every op with leftovers of
+   other lengths present) *)
+Theorem C05_leftovers_never_read :
+  forall sha sigok zdec base (w : world) (L L' : dls) (o : op),
+    let '(wl1, r1, log1) := step2 sha sigok zdec base (w, L) o in
+    let '(wl2, r2, log2) := step2 sha sigok zdec base (w, L') o in
+    fst wl1 = fst wl2 /\ r1 = r2 /\ log1 = log2 /\ fst wl1 = fst (fst (step sha sigok zdec base w o)).
+Proof.
+  intros sha sigok zdec base w L L' o. unfold step2. cbn [fst snd].
+  destruct (step sha sigok zdec base w o) as [[w' r] log]. cbn. auto.
+Qed.
+Print Assumptions C05_leftovers_never_read.
+
+(* after an update that reached the download: downloads/<n> holds exactly the body the server sent
+   (no stale tail), and <n>.full is gone iff the patch was installed (add_patch renamed it into place);
+   a rejected output is left behind in full, a failed inflate leaves some prefix *)
+Theorem C05_download_dir_after_update :
+  forall sha sigok zdec base (w : world) (L : dls) ch (rs : resp) (body : bytes) (p : patch) c w' r log L',
+    w_cfg w = Some c -> r_patch rs = Some p ->
+    step2 sha sigok zdec base (w, L) (OUpdate ch (Some rs) (Some body)) = ((w', L'), r, log) ->
+    existsb is_download log = true ->
+    dl_file L' (p_num p) = Some body /\
+    (forall k, k <> p_num p -> dl_file L' k = dl_file L k /\ dl_full L' k = dl_full L k) /\
+    match inflate zdec base body with
+    | None => dl_full L' (p_num p) = Some FPartial
+    | Some outb => dl_full L' (p_num p) = match r with RStatus 1 => None | _ => Some (FBytes outb) end
+    end.
+Proof.
+  intros sha sigok zdec base w L ch rs body p c w' r log L' Hc Hp H Hd.
+  unfold step2 in H. cbn [fst snd] in H.
+  destruct (step sha sigok zdec base w (OUpdate ch (Some rs) (Some body))) as [[w1 r1] log1] eqn:E.
+  inversion H; subst; clear H.
+  unfold dl_step. rewrite Hc, Hp, Hd.
+  assert (Hne : forall k, k <> p_num p -> (k =? p_num p) = false) by (intros; apply N.eqb_neq; auto).
+  destruct (inflate zdec base body) as [outb|].
+  - repeat split.
+    + destruct r as [| | | |z]; try (destruct z as [|[| |]|]); cbn; rewrite N.eqb_refl; reflexivity.
+    + destruct r as [| | | |z]; try (destruct z as [|[| |]|]); cbn; rewrite (Hne k H); reflexivity.
+    + destruct r as [| | | |z]; try (destruct z as [|[| |]|]); cbn; rewrite (Hne k H); reflexivity.
+    + destruct r as [| | | |z]; try (destruct z as [|[| |]|]); cbn; rewrite N.eqb_refl; reflexivity.
+  - repeat split; cbn; try rewrite N.eqb_refl; try rewrite (Hne k H); reflexivity.
+Qed.
+Print Assumptions C05_download_dir_after_update.
+
+(* an update that never reached the download (refused, failed check, banned or already-installed offer,
+   failed download request) and every other call leave the directory untouched *)
+Theorem C05_download_dir_untouched :
+  forall sha sigok zdec base (w : world) (L : dls) (o : op) wl r log,
+    step2 sha sigok zdec base (w, L) o = (wl, r, log) ->
+    existsb is_download log = false -> snd wl = L.
+Proof.
+  intros sha sigok zdec base w L o wl r log H Hd. unfold step2 in H. cbn [fst snd] in H.
+  destruct (step sha sigok zdec base w o) as [[w1 r1] log1]. inversion H; subst; clear H. cbn [snd].
+  unfold dl_step. destruct o; try reflexivity.
+  destruct r0 as [rs|]; [|reflexivity]. destruct dl as [body|]; [|reflexivity].
+  destruct (w_cfg w); [|reflexivity]. destruct (r_patch rs); [|reflexivity]. rewrite Hd. reflexivity.
+Qed.
+Print Assumptions C05_download_dir_untouched.
